@@ -82,7 +82,8 @@ def apply_mask(s, mask):
 
 
 def case_variants(s):
-    return [('as built', s), ('lower', s.lower()), ('upper', s.upper())]
+    from vf.common.core import fresh
+    return [('as built', fresh(s)), ('lower', s.lower()), ('upper', s.upper())]
 
 
 def check_hand(cards, who, stats=None):
@@ -309,6 +310,8 @@ def run_shard(spec, seed, tier, stats):
 
 def check_session(scenario, schedule, stats=None, **kw):
     from vf.props import _session
+    if any(b['calls'] != [A.PASS] * 4 or b['cards'] for b in scenario['boards']):
+        return _session.check_relayed(scenario, schedule, stats)
     return _session.check_server_built(scenario, schedule, stats)
 
 
